@@ -7,7 +7,7 @@ from typing import Dict, List
 
 from .. import sym
 from ..sym import Rat, C
-from ..values import Num, Const, Tup, Term, Obj, P, Val, veq, walk_vals
+from ..values import Num, Const, Tup, Term, Obj, P, Val, veq, walk_vals, p_not
 from ..model import AnalysisError
 from ..weaver_model import WeaverModel, DOMAIN_OPS, RESHAPING_OPS, SERIES_FIELDS, rename_refs, refs_in, WEAVER
 from ..alias import AliasAnalysis, FRESH
@@ -100,6 +100,11 @@ def check_paired(ctx, wm: WeaverModel):
                 ctx.check(ok, 'C08.2', f"{op}: reference_{f} receives the same transformation as {f}",
                           f"stored to {f}:           {show(ew.data['value'], 300)}\nexpected for reference:  {show(want, 300)}\nstored to reference_{f}: {show(got, 300)}",
                           er.loc(), mf.fi.qualname, f"{op}:{rf}")
+                # the transformation happens on every path that does not reject the arguments (no fast path skips it)
+                rg_ = [g_ for r_ in mf.raises for g_ in r_.guard]
+                skipping = [g_ for g_ in ew.guard if not any(veq(g_, p_not(x_)) for x_ in rg_)]
+                ctx.check(not skipping, 'C08.2', f"{op}: {f} is transformed on every accepted call (no condition skips the operation)",
+                          f"only when {[str(g_)[:100] for g_ in skipping]}", ew.loc(), mf.fi.qualname, f"{op}:{f}:uncond")
                 # guards must agree (a reference update skipped on some path breaks the invariant)
                 gw = [g for g in ew.guard]
                 gr = [g for g in er.guard]
@@ -246,6 +251,9 @@ def run(ctx):
     from .common import dt_weaver, DT_RULE
     ctx.rule('C08.5', DT_RULE)
     dt_weaver(ctx, 'C08.5', wm, DOMAIN_OPS)
+    from . import c17, c07
+    c07.check_adaptive_unitfree(ctx)     # 'shifting or scaling commutes with recreate + match': the adaptive windows (default strategy) are unit-free
+    c17.check_append(ctx)                # 'the original with exactly those transformations applied': the one domain operation defined in the helpers module
     ctx.rule('C08.4', 'no in-place write site reachable from a Weaver method has the reference or the original in its alias class')
     ctx.notes.append('History quantifier discharged by induction: Inv-R/Inv-W established by C08.1, preserved by C08.2 (domain) and C08.3 (all other methods).')
     ctx.notes.append('NOT DECIDED here: that each transformation is the documented one (C11, C12, C14, C17); the numeric corollary about recreate+match.')
